@@ -1541,6 +1541,8 @@ class HplDataAccess(HplExpression):
             expr = stack.pop()
             t = expr._get_next_token(t)
             self._type_check(expr, t.type)
+            if expr.is_indexed:
+                expr.index.type_check_references(this_msg, variables)
             # expr.message_type = t
 
     def _get_next_token(self, token: TypeToken) -> TypeToken:
